@@ -35,6 +35,19 @@ def tts(t):
     return "(" + ", ".join(tts(a) for a in t[1]) + ")"
 
 
+def src(t):
+    """Rust SOURCE text of the type: as tts, except that a 1-tuple needs its trailing comma - (T,) - because
+    (T) is a parenthesised type; type_to_string prints the 1-tuple as (T)"""
+    k = t[0]
+    if k == "p":
+        return t[1] if not t[2] else "%s<%s>" % (t[1], ", ".join(src(a) for a in t[2]))
+    if k == "r":
+        return "&" + src(t[1])
+    if len(t[1]) == 1:
+        return "(" + src(t[1][0]) + ",)"
+    return "(" + ", ".join(src(a) for a in t[1]) + ")"
+
+
 def sx_ty(t):
     k = t[0]
     if k == "p":
@@ -95,6 +108,33 @@ def build(cons, arity, pos, inner, fill=FILL):
     return ["p", cons, args]
 
 
+# tuple arities beyond the 2..4 of the main enumeration: 1 (printed (T), serde writes [t]) and 5, 6
+EXTRA_TUPLES = [("tuple", 1), ("tuple", 5), ("tuple", 6)]
+
+
+def tuple_arity_types(leaves=LEAVES):
+    """1-, 5- and 6-tuples at every argument position of every constructor and around every type of depth <= 1"""
+    level0 = [leaf(s) for s in leaves]
+    level1 = [t for t in spines(1, leaves) if depth(t) >= 1]
+    out = []
+    new1 = []
+    for cons, ar in EXTRA_TUPLES:
+        for pos in range(ar):
+            for u in level0:
+                new1.append(build(cons, ar, pos, u))
+            if ar == 1 or pos in (0, ar - 1):        # around depth-1 types: every 1-tuple, first and last position of 5/6
+                for u in level1:
+                    out.append(build(cons, ar, pos, u))
+    out += new1
+    for cons, ar in CONSTRUCTORS + EXTRA_TUPLES:
+        for pos in range(ar):
+            for u in [x for x in new1 if tts(x).count("User") + tts(x).count("f64") >= 1 and "Status" not in tts(x)][::2]:
+                t = build(cons, ar, pos, u)
+                if t is not None:
+                    out.append(t)
+    return out
+
+
 def spines(maxdepth, leaves=LEAVES):
     """all constructor spines up to maxdepth: level d = every constructor at every argument
     position around every type of level d-1"""
@@ -130,7 +170,7 @@ def random_type(rng, d, leaves=LEAVES, key=False):
     if d == 0 or rng.random() < 0.18:
         s = rng.choice(leaves + NUMERIC[:4]) if rng.random() < 0.9 else rng.choice(NUMERIC)
         return leaf(s)
-    cons, ar = rng.choice(CONSTRUCTORS)
+    cons, ar = rng.choice(CONSTRUCTORS + EXTRA_TUPLES)
     args = []
     for j in range(ar):
         if cons in ("HashMap", "BTreeMap") and j == 0:
